@@ -29,7 +29,15 @@ def make_groups(rng):
     t = rng.choice(list(family.TEMPLATES))
     gs = [family.draw_group(rng, t, kind="shampoo")]
     if rng.random() < 0.4:
-        gs.append(family.draw_group(rng, rng.choice(list(family.TEMPLATES)), kind="shampoo"))
+        g2 = family.draw_group(rng, rng.choice(list(family.TEMPLATES)), kind="shampoo")
+        if rng.random() < 0.5 and g2["freq"] <= gs[0]["start"]:
+            g2["start"] = gs[0]["start"]         # then the group leaves the start step unset and must inherit the resolved value
+        gs.append(g2)
+    if rng.random() < 0.15:                      # iterative root solvers (looser agreement with the eigendecomposition reference)
+        for g in gs:
+            g["method"], g["mult"] = rng.choice(["newton", "higher"]), 1.0
+            if isinstance(g["override"], list) or g["override"] == 1:
+                g["override"] = 0
     return gs
 
 
